@@ -236,10 +236,14 @@ def verify_one(task):
         res.update(status="infra", detail="vacuity canary did not fail: preconditions contradictory or harness unreachable")
     elif res["n_post"] == 0 and not task.get("plain"):
         res.update(status="infra", detail="no postcondition obligation generated")
-    elif any(p["status"] != "FAILURE" for p in failed):
-        # ERROR / UNKNOWN: the decision procedure gave up (SMT back ends on large problems); not an answer
+    elif failed and not any(p["status"] == "FAILURE" for p in failed):
+        # only ERROR / UNKNOWN: the decision procedure gave up (SMT back ends on large problems); not an answer
         res.update(status="undecided", detail="back end %s returned %s for %d obligations" % (task["backend"], sorted(set(p["status"] for p in failed)), len(failed)))
         res["failed"] = []
+    elif any(p["status"] != "FAILURE" for p in failed):
+        # definite failures next to obligations left UNKNOWN (those that follow the failing access on the same path): the failures count
+        res["failed"] = [f for f in res["failed"] if f["status"] == "FAILURE"]
+        res.update(status="failed", detail="; ".join(f["property"] for f in res["failed"][:5]))
     elif failed:
         res.update(status="failed", detail="; ".join(p["property"] for p in failed[:5]))
     else:
